@@ -8,14 +8,15 @@ import sys
 from concurrent.futures import ThreadPoolExecutor
 
 ROOT = os.path.dirname(os.path.dirname(os.path.abspath(__file__)))
-only = sys.argv[1].split(",") if len(sys.argv) > 1 else None
+only = sys.argv[1].split(",") if len(sys.argv) > 1 and sys.argv[1] != "all" else None
+NUMS = [int(x) for x in sys.argv[2].split(",")] if len(sys.argv) > 2 else [1, 2]
 extra = {}  # property -> additional checks worth running
 jobs = []
 for d in sorted(glob.glob("/tmp/mut/C*/out")):
     pid = d.split("/")[3]
     if only and pid not in only:
         continue
-    for n in (1, 2):
+    for n in NUMS:
         patch, demo_src = os.path.join(d, "patch%d.diff" % n), os.path.join(d, "demo%d.cpp" % n)
         if os.path.exists(patch) and os.path.exists(demo_src):
             jobs.append((pid, n, patch, demo_src))
